@@ -14,6 +14,16 @@ CHECKS = {
    text="Generated programs (all legal instruction forms, data, text, labels, nested scopes, label-difference constants, variables, pc assignments, .align, 1-3 segments incl. relocated ones and segments.x.end chains, super/dotted/shadowed names, origins on the zero-page boundary so that forward references flip instruction sizes) are assembled in-process; a reference walk recomputes every byte, label address and operand value from the final layout (reading only the zp/abs size choice from the image, so every self-consistent image is accepted) and compares image, symbol table and VICE text. A confirmation campaign covers the recorded finding region (forward reference to a shadowing definition).",
    note="Trusts the reference models (layout.rs/eval.rs/isa.rs). Programs the model cannot evaluate are counted as model-unsupported (health floor), not judged. Non-terminating or failing assemblies are counted, not judged (C06/C04). CLI image equality is covered by C09/C10.",
    ref="§5 C02"),
+ "C03": dict(
+   technique="proptest over value-tracked expression trees; oracle = independent reference evaluator (differential)",
+   text="Expression trees up to depth 5 over all operators, radixes, modifiers, `*`, defined(), unary -/!, strings (concat, compare, interpolation) are placed in .byte/.word/.dword/.text/immediates of small programs; emitted bytes are compared with a reference evaluator. Values are kept inside the documented domain by construction; operators whose meaning on negative operands differs between conventions are only generated where all conventions agree.",
+   note="Trusts model/eval.rs. The generator parenthesises wherever the documentation fixes no relative precedence, so only documented precedence/associativity is asserted.",
+   ref="§5 C03"),
+ "C05": dict(
+   technique="proptest text generation + character mutation; round-trip oracle (print(parse(t)) == t up to case/CRLF) with the contrapositive 'text lost => diagnostic'",
+   text="Rendered generator programs with random trivia (nested/multi-line/non-ASCII comments, CRLF, case flips) and concatenated fragments of the repository's example sources, each with 0-2 inserted/deleted/replaced characters from a list of hostile characters, are parsed in-process; whenever no diagnostic is reported the concatenated Display of the tokens must reproduce the text.",
+   note="Case is compared after upper-casing both sides and CRLF after normalising both sides, the weakest comparison that still accounts for every character. Only the main file's tokens are printed (as the property states).",
+   ref="§5 C05"),
 }
 
 NOT_YET = {
